@@ -227,6 +227,8 @@ pub const ALLOC_SCRIPTS: &[&[Op]] = &[
     &[Op::Realloc(8, 24)],
     &[Op::AllocZeroed(16), Op::Realloc(16, 4)],
     &[Op::Dealloc(32), Op::Alloc(3), Op::Alloc(5)],
+    // only frees (a block obtained before the section): no `alloc` at all in the sample
+    &[Op::Dealloc(16)],
 ];
 
 /// Applies one allocator operation through the real profiler on this thread.
